@@ -1,16 +1,27 @@
 // vinstr generates, from the CURRENT working tree of the library, the
 // instrumented sources and the build overlay the C18 schedule explorer is
-// built with:
+// built with. It type-checks each instrumented package (go/types, source
+// importer, offline) and inserts, in front of every statement, a
+// vsync.AccessF probe for every memory location the statement touches that
+// another goroutine could reach:
 //
-//   - fees.go: package sync -> the vsync shim (scheduling points at every lock
-//     operation), time.Now -> vsync.Now, and a vsync.Access call in front of
-//     every statement that mentions a field of a mutex-guarded struct (all
-//     fields, other than the mutex itself, of any struct that contains a
-//     sync.Mutex/RWMutex; write = assignment target, map element assignment
-//     or delete, read otherwise);
-//   - bscript/interpreter/*.go (non-test): a vsync.Access call in front of every
-//     statement that mentions a field of the engine value through a method
-//     receiver, or that assigns to a package-level variable.
+//   - every struct field selected through a pointer (p.f, p.a.b, p.items[i].f -
+//     the object is the innermost pointer on the path, the field is the rest of
+//     the path); write = assignment / inc-dec target, element assignment or
+//     delete on a map/slice field, read otherwise. Fields of type sync.Mutex /
+//     sync.RWMutex are the synchronisation itself and are not probed;
+//   - every package-level variable of the package (read; write when assigned,
+//     element-assigned, or when a method is called on it - a shared hasher,
+//     cache or pool mutates itself);
+//   - local variables bound to a map- or slice-typed field or package variable
+//     (fees := f.fees): using the local later is an access to that location.
+//
+// A probe never changes behaviour: the object expression is evaluated inside a
+// closure whose panic (nil path) is swallowed by the shim.
+//
+// Packages: the module root (package bt; fees.go additionally gets package
+// sync replaced by the vsync shim and time.Now by vsync.Now), bscript and
+// bscript/interpreter.
 //
 // usage: vinstr <repo> <workdir>   (writes <workdir>/overlay.json)
 package main
@@ -21,8 +32,10 @@ import (
 	"fmt"
 	"go/ast"
 	"go/format"
+	"go/importer"
 	"go/parser"
 	"go/token"
+	"go/types"
 	"os"
 	"path/filepath"
 	"strconv"
@@ -31,19 +44,14 @@ import (
 
 const shimPath = "github.com/libsv/go-bt/v2/zzverif/vsync"
 
-type tracked struct {
-	refFields map[string]bool            // "Struct.field" whose type is a map, slice, pointer or channel (aliasable)
-	structs   map[string]map[string]bool // struct name -> guarded field names
-	pkgVars   map[string]bool
-	engine    string // struct name whose every field is tracked (interpreter)
-}
-
 func main() {
 	if len(os.Args) != 3 {
 		fmt.Println("usage: vinstr <repo> <workdir>")
 		os.Exit(2)
 	}
 	repo, work := os.Args[1], os.Args[2]
+	repo, _ = filepath.Abs(repo)
+	work, _ = filepath.Abs(work)
 	_ = os.MkdirAll(work, 0o755)
 	overlay := map[string]string{}
 	shim, _ := filepath.Abs(filepath.Join(filepath.Dir(os.Args[0]), "..", "internal", "sched", "shim", "vsync.go"))
@@ -51,78 +59,14 @@ func main() {
 		shim = filepath.Join(v, "internal", "sched", "shim", "vsync.go")
 	}
 	overlay[filepath.Join(repo, "zzverif", "vsync", "vsync.go")] = shim
-
-	// ---- fees.go
-	out, n, err := instrumentFile(filepath.Join(repo, "fees.go"), true, nil)
-	if err != nil {
-		fmt.Println("vinstr: fees.go:", err)
-		os.Exit(1)
-	}
-	dst := filepath.Join(work, "fees_instr.go")
-	must(os.WriteFile(dst, out, 0o644))
-	overlay[filepath.Join(repo, "fees.go")] = dst
-	fmt.Printf("vinstr: fees.go: %d access probes\n", n)
-
-	// ---- interpreter package: engine fields and package-level variables
-	idir := filepath.Join(repo, "bscript", "interpreter")
-	files, _ := filepath.Glob(filepath.Join(idir, "*.go"))
-	tr := &tracked{structs: map[string]map[string]bool{}, pkgVars: map[string]bool{}, engine: "engine", refFields: map[string]bool{}}
-	fset := token.NewFileSet()
-	var parsed []*ast.File
-	var names []string
-	for _, f := range files {
-		if strings.HasSuffix(f, "_test.go") {
-			continue
-		}
-		af, err := parser.ParseFile(fset, f, nil, parser.ParseComments)
+	for _, p := range []struct{ dir, tag string }{{".", "bt"}, {"bscript", "bscript"}, {filepath.Join("bscript", "interpreter"), "interp"}} {
+		n, files, err := instrumentPackage(filepath.Join(repo, p.dir), work, p.tag, overlay)
 		if err != nil {
-			fmt.Println("vinstr:", err)
+			fmt.Printf("vinstr: %s: %v\n", p.dir, err)
 			os.Exit(1)
 		}
-		parsed = append(parsed, af)
-		names = append(names, f)
-		for _, d := range af.Decls {
-			gd, ok := d.(*ast.GenDecl)
-			if !ok {
-				continue
-			}
-			for _, sp := range gd.Specs {
-				switch s := sp.(type) {
-				case *ast.ValueSpec:
-					if gd.Tok == token.VAR {
-						for _, id := range s.Names {
-							tr.pkgVars[id.Name] = true
-						}
-					}
-				case *ast.TypeSpec:
-					if st, ok := s.Type.(*ast.StructType); ok && s.Name.Name == tr.engine {
-						fs := map[string]bool{}
-						for _, fl := range st.Fields.List {
-							for _, id := range fl.Names {
-								fs[id.Name] = true
-							}
-						}
-						tr.structs[tr.engine] = fs
-					}
-				}
-			}
-		}
+		fmt.Printf("vinstr: package %s: %d access probes in %d files\n", p.tag, n, files)
 	}
-	total := 0
-	for i, af := range parsed {
-		n := instrumentAST(fset, af, tr, false)
-		if n == 0 {
-			continue
-		}
-		total += n
-		addImport(af, shimPath)
-		var buf bytes.Buffer
-		must(format.Node(&buf, fset, af))
-		dst := filepath.Join(work, "interp_"+filepath.Base(names[i]))
-		must(os.WriteFile(dst, buf.Bytes(), 0o644))
-		overlay[names[i]] = dst
-	}
-	fmt.Printf("vinstr: interpreter: %d access probes (engine fields: %d, package vars: %d)\n", total, len(tr.structs[tr.engine]), len(tr.pkgVars))
 	b, _ := json.MarshalIndent(map[string]any{"Replace": overlay}, "", " ")
 	must(os.WriteFile(filepath.Join(work, "overlay.json"), b, 0o644))
 }
@@ -134,85 +78,109 @@ func must(err error) {
 	}
 }
 
-// instrumentFile handles a file that uses package sync itself (fees.go).
-func instrumentFile(path string, swapSync bool, tr *tracked) ([]byte, int, error) {
+type instr struct {
+	fset *token.FileSet
+	info *types.Info
+	pkg  *types.Package
+	n    int
+}
+
+func instrumentPackage(dir, work, tag string, overlay map[string]string) (int, int, error) {
 	fset := token.NewFileSet()
-	af, err := parser.ParseFile(fset, path, nil, parser.ParseComments)
-	if err != nil {
-		return nil, 0, err
+	names, _ := filepath.Glob(filepath.Join(dir, "*.go"))
+	var files []*ast.File
+	var paths []string
+	for _, f := range names {
+		if strings.HasSuffix(f, "_test.go") {
+			continue
+		}
+		// comments are dropped (inserted statements would otherwise displace them); a file with
+		// compiler directives must not lose them, so it is refused
+		src, err := os.ReadFile(f)
+		if err != nil {
+			return 0, 0, err
+		}
+		if bytes.Contains(src, []byte("\n//go:")) || bytes.HasPrefix(src, []byte("//go:")) || bytes.Contains(src, []byte("// +build")) {
+			return 0, 0, fmt.Errorf("%s carries compiler directives; not instrumentable", f)
+		}
+		af, err := parser.ParseFile(fset, f, src, 0)
+		if err != nil {
+			return 0, 0, err
+		}
+		files = append(files, af)
+		paths = append(paths, f)
 	}
-	if tr == nil {
-		tr = &tracked{structs: map[string]map[string]bool{}, pkgVars: map[string]bool{}, refFields: map[string]bool{}}
-		// every struct that holds a sync mutex: all its other fields are guarded
-		for _, d := range af.Decls {
-			gd, ok := d.(*ast.GenDecl)
-			if !ok {
-				continue
-			}
-			for _, sp := range gd.Specs {
-				ts, ok := sp.(*ast.TypeSpec)
-				if !ok {
-					continue
-				}
-				st, ok := ts.Type.(*ast.StructType)
-				if !ok {
-					continue
-				}
-				hasMu := false
-				fields := map[string]bool{}
-				for _, fl := range st.Fields.List {
-					isMu := false
-					if se, ok := fl.Type.(*ast.SelectorExpr); ok {
-						if x, ok := se.X.(*ast.Ident); ok && x.Name == "sync" && strings.HasSuffix(se.Sel.Name, "Mutex") {
-							isMu = true
-						}
-					}
-					if isMu {
-						hasMu = true
-						continue
-					}
-					for _, id := range fl.Names {
-						fields[id.Name] = true
-						switch t := fl.Type.(type) {
-						case *ast.MapType, *ast.StarExpr, *ast.ChanType:
-							tr.refFields[ts.Name.Name+"."+id.Name] = true
-						case *ast.ArrayType:
-							if t.Len == nil {
-								tr.refFields[ts.Name.Name+"."+id.Name] = true
-							}
-						}
-					}
-				}
-				if hasMu {
-					tr.structs[ts.Name.Name] = fields
-				}
-			}
+	// the source importer resolves the module's dependencies through the go command: run it from inside the module
+	old, _ := os.Getwd()
+	must(os.Chdir(dir))
+	defer func() { _ = os.Chdir(old) }()
+	var firstErr error
+	conf := types.Config{Importer: importer.ForCompiler(fset, "source", nil), Error: func(err error) {
+		if firstErr == nil {
+			firstErr = err
+		}
+	}}
+	info := &types.Info{Types: map[ast.Expr]types.TypeAndValue{}, Uses: map[*ast.Ident]types.Object{}, Defs: map[*ast.Ident]types.Object{}, Selections: map[*ast.SelectorExpr]*types.Selection{}}
+	pkg, _ := conf.Check(files[0].Name.Name, fset, files, info)
+	if firstErr != nil {
+		return 0, 0, fmt.Errorf("type check: %v", firstErr)
+	}
+	in := &instr{fset: fset, info: info, pkg: pkg}
+	done := 0
+	for i, af := range files {
+		before := in.n
+		in.file(af)
+		swap := tag == "bt" && filepath.Base(paths[i]) == "fees.go"
+		if in.n == before && !swap {
+			continue
+		}
+		if swap {
+			swapSync(af)
+			renameShim(af, "sync")
+		} else {
+			addImport(af, shimPath)
+		}
+		var buf bytes.Buffer
+		if err := format.Node(&buf, fset, af); err != nil {
+			return 0, 0, err
+		}
+		dst := filepath.Join(work, tag+"_"+filepath.Base(paths[i]))
+		must(os.WriteFile(dst, buf.Bytes(), 0o644))
+		overlay[paths[i]] = dst
+		done++
+	}
+	return in.n, done, nil
+}
+
+// swapSync makes fees.go import the shim under the name sync and use its clock.
+func swapSync(af *ast.File) {
+	for _, im := range af.Imports {
+		p, _ := strconv.Unquote(im.Path.Value)
+		if p == "sync" {
+			im.Path.Value = strconv.Quote(shimPath)
+			im.Name = ast.NewIdent("sync")
 		}
 	}
-	n := instrumentAST(fset, af, tr, true)
-	if swapSync {
-		for _, im := range af.Imports {
-			p, _ := strconv.Unquote(im.Path.Value)
-			if p == "sync" {
-				im.Path.Value = strconv.Quote(shimPath)
-				im.Name = ast.NewIdent("sync")
+	ast.Inspect(af, func(nd ast.Node) bool {
+		if se, ok := nd.(*ast.SelectorExpr); ok {
+			if x, ok := se.X.(*ast.Ident); ok && x.Name == "time" && se.Sel.Name == "Now" {
+				x.Name = "sync"
 			}
 		}
-		// time.Now -> sync.Now (the shim is imported under the name sync)
-		ast.Inspect(af, func(nd ast.Node) bool {
-			if se, ok := nd.(*ast.SelectorExpr); ok {
-				if x, ok := se.X.(*ast.Ident); ok && x.Name == "time" && se.Sel.Name == "Now" {
-					x.Name = "sync"
-				}
+		return true
+	})
+}
+
+// renameShim points the probes (emitted as vsync.AccessF) at the shim's name in this file.
+func renameShim(af *ast.File, name string) {
+	ast.Inspect(af, func(nd ast.Node) bool {
+		if se, ok := nd.(*ast.SelectorExpr); ok {
+			if x, ok := se.X.(*ast.Ident); ok && x.Name == "vsync" && se.Sel.Name == "AccessF" {
+				x.Name = name
 			}
-			return true
-		})
-	}
-	var buf bytes.Buffer
-	if err := format.Node(&buf, fset, af); err != nil {
-		return nil, 0, err
-	}
-	return buf.Bytes(), n, nil
+		}
+		return true
+	})
 }
 
 func addImport(af *ast.File, path string) {
@@ -235,238 +203,422 @@ func addImport(af *ast.File, path string) {
 }
 
 type probe struct {
-	recv  string // expression text of the object (receiver identifier) or "" for package vars
+	obj   string // source text of the pointer expression, or "" for a package variable
 	field string
 	write bool
 }
 
-// instrumentAST inserts Access probes; shimAsSync says the shim is imported as "sync".
-func instrumentAST(fset *token.FileSet, af *ast.File, tr *tracked, shimAsSync bool) int {
-	pkg := "vsync"
-	if shimAsSync {
-		pkg = "sync"
+type alias struct {
+	obj, field string
+}
+
+func (in *instr) text(e ast.Expr) string {
+	var buf bytes.Buffer
+	_ = format.Node(&buf, in.fset, e)
+	return buf.String()
+}
+
+func isSyncType(t types.Type) bool {
+	if p, ok := t.(*types.Pointer); ok {
+		t = p.Elem()
 	}
-	count := 0
+	if n, ok := t.(*types.Named); ok && n.Obj().Pkg() != nil && n.Obj().Pkg().Path() == "sync" {
+		return true
+	}
+	return false
+}
+
+func isRefType(t types.Type) bool {
+	switch t.Underlying().(type) {
+	case *types.Map, *types.Slice:
+		return true
+	}
+	return false
+}
+
+// pure reports whether evaluating e again has no effects (identifiers, selectors, derefs, indexing).
+func pure(e ast.Expr) bool {
+	ok := true
+	ast.Inspect(e, func(n ast.Node) bool {
+		switch n.(type) {
+		case *ast.CallExpr, *ast.FuncLit, *ast.UnaryExpr, *ast.TypeAssertExpr, *ast.CompositeLit:
+			ok = false
+		}
+		return ok
+	})
+	return ok
+}
+
+var errorType = types.Universe.Lookup("error").Type().Underlying().(*types.Interface)
+
+// mutableRef: the variable refers to state a callee could change (not an error value).
+func (in *instr) mutableRef(id *ast.Ident) bool {
+	o := in.info.Uses[id]
+	if o == nil {
+		return false
+	}
+	t := o.Type()
+	if types.Implements(t, errorType) {
+		return false
+	}
+	// slices and maps handed to a callee are, in this code base, read-only tables (defaultHex
+	// to bytes.Equal): counting them would report races that do not exist
+	switch t.Underlying().(type) {
+	case *types.Pointer, *types.Interface, *types.Chan:
+		return true
+	}
+	return false
+}
+
+func (in *instr) pkgVar(id *ast.Ident) bool {
+	v, ok := in.info.Uses[id].(*types.Var)
+	return ok && !v.IsField() && v.Pkg() == in.pkg && v.Parent() == in.pkg.Scope()
+}
+
+// location resolves a field selector to (pointer object expression, field path).
+func (in *instr) location(x *ast.SelectorExpr) (obj string, root ast.Expr, field string, ok bool) {
+	sel := in.info.Selections[x]
+	if sel == nil || sel.Kind() != types.FieldVal {
+		return "", nil, "", false
+	}
+	if isSyncType(sel.Type()) {
+		return "", nil, "", false
+	}
+	path := []string{x.Sel.Name}
+	var e ast.Expr = x.X
+	for {
+		if p, ok := e.(*ast.ParenExpr); ok {
+			e = p.X
+			continue
+		}
+		tv, known := in.info.Types[e]
+		if !known {
+			return "", nil, "", false
+		}
+		if _, isPtr := tv.Type.Underlying().(*types.Pointer); isPtr {
+			break
+		}
+		// a struct value: part of the enclosing object if it is itself a field, a package
+		// variable if it is one; anything else (local value, element of a local slice) is not shared
+		switch v := e.(type) {
+		case *ast.SelectorExpr:
+			s2 := in.info.Selections[v]
+			if s2 == nil || s2.Kind() != types.FieldVal {
+				return "", nil, "", false
+			}
+			path = append([]string{v.Sel.Name}, path...)
+			e = v.X
+			continue
+		case *ast.Ident:
+			if in.pkgVar(v) {
+				return "", nil, v.Name + "." + strings.Join(path, "."), true
+			}
+			return "", nil, "", false
+		case *ast.StarExpr:
+			e = v.X
+			continue
+		case *ast.IndexExpr:
+			// element of a slice/array/map of struct values: the container is what is shared
+			switch c := v.X.(type) {
+			case *ast.SelectorExpr:
+				o, r, f, ok := in.location(c)
+				if !ok {
+					return "", nil, "", false
+				}
+				return o, r, f + "[]." + strings.Join(path, "."), true
+			case *ast.Ident:
+				if in.pkgVar(c) {
+					return "", nil, c.Name + "[]." + strings.Join(path, "."), true
+				}
+			}
+			return "", nil, "", false
+		default:
+			return "", nil, "", false
+		}
+	}
+	if !pure(e) {
+		return "", nil, "", false
+	}
+	return in.text(e), e, strings.Join(path, "."), true
+}
+
+func (in *instr) file(af *ast.File) {
 	for _, d := range af.Decls {
 		fd, ok := d.(*ast.FuncDecl)
 		if !ok || fd.Body == nil {
 			continue
 		}
-		// receiver of a tracked struct?
-		recvName, recvStruct := "", ""
-		if fd.Recv != nil && len(fd.Recv.List) == 1 && len(fd.Recv.List[0].Names) == 1 {
-			t := fd.Recv.List[0].Type
-			if st, ok := t.(*ast.StarExpr); ok {
-				t = st.X
-			}
-			if id, ok := t.(*ast.Ident); ok {
-				if _, ok := tr.structs[id.Name]; ok {
-					recvName, recvStruct = fd.Recv.List[0].Names[0].Name, id.Name
+		in.function(fd)
+	}
+}
+
+func (in *instr) function(fd *ast.FuncDecl) {
+	fn := fd.Name.Name
+	aliases := map[types.Object]alias{}
+	var instrBlock func(b *ast.BlockStmt)
+	exprOf := map[string]ast.Expr{}
+
+	collect := func(s ast.Stmt) []probe {
+		var ps []probe
+		seen := map[probe]bool{}
+		// every identifier of the object expression must be declared outside the statement
+		inScope := func(e ast.Expr) bool {
+			ok := true
+			ast.Inspect(e, func(n ast.Node) bool {
+				if id, isID := n.(*ast.Ident); isID {
+					if o := in.info.Uses[id]; o != nil && o.Pos() >= s.Pos() && o.Pos() < s.End() {
+						ok = false
+					}
 				}
+				return ok
+			})
+			return ok
+		}
+		add := func(p probe) {
+			if !seen[p] {
+				seen[p] = true
+				ps = append(ps, p)
 			}
 		}
-		// aliases: local variables bound to a tracked reference-typed field (fees := f.fees);
-		// using the local later is an access to the same location
-		aliases := map[string]probe{}
-		locals := map[string]bool{}
-		if fd.Type.Params != nil {
-			for _, p := range fd.Type.Params.List {
-				for _, id := range p.Names {
-					locals[id.Name] = true
+		writes := map[ast.Expr]bool{}
+		markWrite := func(e ast.Expr) {
+			for {
+				switch x := e.(type) {
+				case *ast.IndexExpr:
+					e = x.X
+					continue
+				case *ast.ParenExpr:
+					e = x.X
+					continue
+				case *ast.StarExpr:
+					e = x.X
+					continue
+				case *ast.SliceExpr:
+					e = x.X
+					continue
 				}
+				break
 			}
+			writes[e] = true
 		}
-		fn := fd.Name.Name
-		var instrBlock func(b *ast.BlockStmt)
-		collect := func(s ast.Stmt) []probe {
-			var ps []probe
-			seen := map[string]bool{}
-			add := func(p probe) {
-				k := fmt.Sprint(p)
-				if !seen[k] {
-					seen[k] = true
-					ps = append(ps, p)
-				}
+		defining := map[*ast.Ident]bool{}
+		var newAliases []func()
+		switch st := s.(type) {
+		case *ast.AssignStmt:
+			for _, l := range st.Lhs {
+				markWrite(l)
 			}
-			writes := map[ast.Expr]bool{}
-			defining := map[*ast.Ident]bool{}
-			if as, ok := s.(*ast.AssignStmt); ok && len(as.Lhs) == 1 && len(as.Rhs) == 1 {
-				if id, ok := as.Lhs[0].(*ast.Ident); ok {
+			if len(st.Lhs) == len(st.Rhs) {
+				for i, l := range st.Lhs {
+					id, ok := l.(*ast.Ident)
+					if !ok {
+						continue
+					}
 					defining[id] = true
-					delete(aliases, id.Name) // rebound
-					if se, ok := as.Rhs[0].(*ast.SelectorExpr); ok && recvName != "" {
-						if x, ok := se.X.(*ast.Ident); ok && x.Name == recvName && tr.structs[recvStruct][se.Sel.Name] && tr.refFields[recvStruct+"."+se.Sel.Name] {
-							defer func(name string, p probe) { aliases[name] = p }(id.Name, probe{recv: recvName, field: se.Sel.Name})
-						}
+					o := in.info.Defs[id]
+					if o == nil {
+						o = in.info.Uses[id]
 					}
-				}
-			}
-			markWrite := func(e ast.Expr) {
-				for {
-					switch x := e.(type) {
-					case *ast.IndexExpr:
-						e = x.X
-						continue
-					case *ast.ParenExpr:
-						e = x.X
-						continue
-					case *ast.StarExpr:
-						e = x.X
+					if o == nil {
 						continue
 					}
-					break
-				}
-				writes[e] = true
-			}
-			// find write targets first (shallow: this statement only)
-			switch st := s.(type) {
-			case *ast.AssignStmt:
-				for _, l := range st.Lhs {
-					markWrite(l)
-				}
-			case *ast.IncDecStmt:
-				markWrite(st.X)
-			case *ast.ExprStmt:
-				if c, ok := st.X.(*ast.CallExpr); ok {
-					if id, ok := c.Fun.(*ast.Ident); ok && id.Name == "delete" && len(c.Args) > 0 {
-						markWrite(c.Args[0])
+					delete(aliases, o) // rebound
+					tv, known := in.info.Types[st.Rhs[i]]
+					if !known {
+						continue
 					}
-				}
-			}
-			var walk func(n ast.Node, topWrite bool)
-			walk = func(n ast.Node, _ bool) {
-				ast.Inspect(n, func(nd ast.Node) bool {
-					switch x := nd.(type) {
-					case *ast.BlockStmt:
-						return false // nested blocks are instrumented on their own
-					case *ast.FuncLit:
-						return false
+					if r, ok := st.Rhs[i].(*ast.Ident); ok && in.pkgVar(r) && in.mutableRef(r) {
+						// a local bound to a package-level pointer / interface: calling its methods is a write
+						o, a := o, alias{"", r.Name}
+						newAliases = append(newAliases, func() { aliases[o] = a })
+						continue
+					}
+					if !isRefType(tv.Type) {
+						continue
+					}
+					switch r := st.Rhs[i].(type) {
 					case *ast.SelectorExpr:
-						if recvName != "" {
-							// innermost selector rooted at the receiver
-							root := x
-							path := []string{}
-							var e ast.Expr = x
-							for {
-								se, ok := e.(*ast.SelectorExpr)
-								if !ok {
-									break
-								}
-								path = append([]string{se.Sel.Name}, path...)
-								root = se
-								e = se.X
-							}
-							if id, ok := e.(*ast.Ident); ok && id.Name == recvName && len(path) > 0 && tr.structs[recvStruct][path[0]] {
-								_ = root
-								add(probe{recv: recvName, field: strings.Join(path, "."), write: writes[x]})
-								return false
-							}
-						}
-					case *ast.CallExpr:
-						// a method call on a package-level variable may mutate it (shared hasher, cache, pool)
-						if se, ok := x.Fun.(*ast.SelectorExpr); ok {
-							if id, ok := se.X.(*ast.Ident); ok && tr.pkgVars[id.Name] && !locals[id.Name] {
-								add(probe{field: id.Name, write: true})
-							}
+						if ob, _, f, ok := in.location(r); ok && (ob == "" || isSimpleIdent(ob)) {
+							o, a := o, alias{ob, f}
+							newAliases = append(newAliases, func() { aliases[o] = a })
 						}
 					case *ast.Ident:
-						if tr.pkgVars[x.Name] && !locals[x.Name] && writes[ast.Expr(x)] {
-							add(probe{field: x.Name, write: true})
-						}
-						if a, ok := aliases[x.Name]; ok && !defining[x] {
-							add(probe{recv: a.recv, field: a.field, write: writes[ast.Expr(x)]})
-						}
-					}
-					return true
-				})
-			}
-			switch st := s.(type) {
-			case *ast.IfStmt:
-				if st.Init != nil {
-					walk(st.Init, false)
-				}
-				walk(st.Cond, false)
-			case *ast.ForStmt:
-				if st.Cond != nil {
-					walk(st.Cond, false)
-				}
-			case *ast.RangeStmt:
-				walk(st.X, false)
-			case *ast.SwitchStmt:
-				if st.Tag != nil {
-					walk(st.Tag, false)
-				}
-			case *ast.BlockStmt:
-			default:
-				walk(s, false)
-			}
-			return ps
-		}
-		var nested func(s ast.Stmt)
-		nested = func(s ast.Stmt) {
-			switch st := s.(type) {
-			case *ast.BlockStmt:
-				instrBlock(st)
-			case *ast.IfStmt:
-				instrBlock(st.Body)
-				if st.Else != nil {
-					nested(st.Else)
-				}
-			case *ast.ForStmt:
-				instrBlock(st.Body)
-			case *ast.RangeStmt:
-				instrBlock(st.Body)
-			case *ast.SwitchStmt:
-				for _, c := range st.Body.List {
-					cc := c.(*ast.CaseClause)
-					b := &ast.BlockStmt{List: cc.Body}
-					instrBlock(b)
-					cc.Body = b.List
-				}
-			case *ast.TypeSwitchStmt:
-				for _, c := range st.Body.List {
-					cc := c.(*ast.CaseClause)
-					b := &ast.BlockStmt{List: cc.Body}
-					instrBlock(b)
-					cc.Body = b.List
-				}
-			}
-		}
-		instrBlock = func(b *ast.BlockStmt) {
-			var out []ast.Stmt
-			for _, s := range b.List {
-				// track simple local declarations so that a local shadowing a package var is not probed
-				if as, ok := s.(*ast.AssignStmt); ok && as.Tok == token.DEFINE {
-					for _, l := range as.Lhs {
-						if id, ok := l.(*ast.Ident); ok {
-							locals[id.Name] = true
+						if in.pkgVar(r) {
+							o, a := o, alias{"", r.Name}
+							newAliases = append(newAliases, func() { aliases[o] = a })
 						}
 					}
 				}
-				for _, p := range collect(s) {
-					count++
-					obj := ast.Expr(ast.NewIdent(p.recv))
-					if p.recv == "" {
-						obj = &ast.BasicLit{Kind: token.STRING, Value: strconv.Quote("package-var")}
-					}
-					w := "false"
-					if p.write {
-						w = "true"
-					}
-					pos := fset.Position(s.Pos())
-					call := &ast.ExprStmt{X: &ast.CallExpr{
-						Fun: &ast.SelectorExpr{X: ast.NewIdent(pkg), Sel: ast.NewIdent("Access")},
-						Args: []ast.Expr{obj, &ast.BasicLit{Kind: token.STRING, Value: strconv.Quote(p.field)}, ast.NewIdent(w),
-							&ast.BasicLit{Kind: token.STRING, Value: strconv.Quote(fmt.Sprintf("%s:%d %s", filepath.Base(pos.Filename), pos.Line, fn))}},
-					}}
-					out = append(out, call)
-				}
-				nested(s)
-				out = append(out, s)
 			}
-			b.List = out
+		case *ast.IncDecStmt:
+			markWrite(st.X)
+		case *ast.ExprStmt:
+			if c, ok := st.X.(*ast.CallExpr); ok {
+				if id, ok := c.Fun.(*ast.Ident); ok && id.Name == "delete" && len(c.Args) > 0 {
+					markWrite(c.Args[0])
+				}
+			}
 		}
-		instrBlock(fd.Body)
+		walk := func(n ast.Node) {
+			ast.Inspect(n, func(nd ast.Node) bool {
+				switch x := nd.(type) {
+				case *ast.BlockStmt:
+					return false // nested blocks are instrumented on their own
+				case *ast.FuncLit:
+					return false
+				case *ast.SelectorExpr:
+					if ob, root, f, ok := in.location(x); ok {
+						if ob == "" || inScope(root) {
+							if ob != "" {
+								exprOf[ob] = root
+							}
+							add(probe{obj: ob, field: f, write: writes[x]})
+						}
+					}
+				case *ast.CallExpr:
+					// a method call on a package-level variable may mutate it (shared hasher, cache, pool)
+					if se, ok := x.Fun.(*ast.SelectorExpr); ok {
+						if id, ok := se.X.(*ast.Ident); ok {
+							if sel := in.info.Selections[se]; sel != nil && sel.Kind() == types.MethodVal {
+								if in.pkgVar(id) {
+									add(probe{field: id.Name, write: true})
+								} else if o := in.info.Uses[id]; o != nil {
+									if a, ok := aliases[o]; ok {
+										add(probe{obj: a.obj, field: a.field, write: true})
+									}
+								}
+							}
+						}
+					}
+					// ... and so may a function that is handed a package-level variable referring to
+					// a stateful object (pointer, non-error interface, channel)
+					for _, arg := range x.Args {
+						if id, ok := arg.(*ast.Ident); ok && in.pkgVar(id) && in.mutableRef(id) {
+							add(probe{field: id.Name, write: true})
+						}
+					}
+				case *ast.Ident:
+					if defining[x] {
+						break
+					}
+					if in.pkgVar(x) {
+						add(probe{field: x.Name, write: writes[ast.Expr(x)]})
+					}
+					if o := in.info.Uses[x]; o != nil {
+						if a, ok := aliases[o]; ok {
+							add(probe{obj: a.obj, field: a.field, write: writes[ast.Expr(x)]})
+						}
+					}
+				}
+				return true
+			})
+		}
+		switch st := s.(type) {
+		case *ast.IfStmt:
+			if st.Init != nil {
+				walk(st.Init)
+			}
+			walk(st.Cond)
+		case *ast.ForStmt:
+			if st.Cond != nil {
+				walk(st.Cond)
+			}
+		case *ast.RangeStmt:
+			walk(st.X)
+		case *ast.SwitchStmt:
+			if st.Tag != nil {
+				walk(st.Tag)
+			}
+		case *ast.TypeSwitchStmt, *ast.BlockStmt, *ast.SelectStmt, *ast.LabeledStmt:
+		default:
+			walk(s)
+		}
+		for _, f := range newAliases {
+			f()
+		}
+		// drop a read probe when the same location is also written by the statement
+		var out []probe
+		for _, p := range ps {
+			if !p.write && seen[probe{p.obj, p.field, true}] {
+				continue
+			}
+			out = append(out, p)
+		}
+		return out
 	}
-	return count
+	var nested func(s ast.Stmt)
+	nested = func(s ast.Stmt) {
+		switch st := s.(type) {
+		case *ast.BlockStmt:
+			instrBlock(st)
+		case *ast.IfStmt:
+			instrBlock(st.Body)
+			if st.Else != nil {
+				nested(st.Else)
+			}
+		case *ast.ForStmt:
+			instrBlock(st.Body)
+		case *ast.RangeStmt:
+			instrBlock(st.Body)
+		case *ast.LabeledStmt:
+			nested(st.Stmt)
+		case *ast.SwitchStmt:
+			for _, c := range st.Body.List {
+				cc := c.(*ast.CaseClause)
+				b := &ast.BlockStmt{List: cc.Body}
+				instrBlock(b)
+				cc.Body = b.List
+			}
+		case *ast.TypeSwitchStmt:
+			for _, c := range st.Body.List {
+				cc := c.(*ast.CaseClause)
+				b := &ast.BlockStmt{List: cc.Body}
+				instrBlock(b)
+				cc.Body = b.List
+			}
+		}
+	}
+	instrBlock = func(b *ast.BlockStmt) {
+		var out []ast.Stmt
+		for _, s := range b.List {
+			for _, p := range collect(s) {
+				var objFn ast.Expr = ast.NewIdent("nil")
+				if p.obj != "" {
+					root, ok := exprOf[p.obj]
+					if !ok {
+						root = ast.NewIdent(p.obj) // alias of a simple identifier
+					}
+					objFn = &ast.FuncLit{
+						Type: &ast.FuncType{Params: &ast.FieldList{}, Results: &ast.FieldList{List: []*ast.Field{{Type: &ast.InterfaceType{Methods: &ast.FieldList{}}}}}},
+						Body: &ast.BlockStmt{List: []ast.Stmt{&ast.ReturnStmt{Results: []ast.Expr{root}}}},
+					}
+				}
+				in.n++
+				w := "false"
+				if p.write {
+					w = "true"
+				}
+				pos := in.fset.Position(s.Pos())
+				call := &ast.ExprStmt{X: &ast.CallExpr{
+					Fun: &ast.SelectorExpr{X: ast.NewIdent("vsync"), Sel: ast.NewIdent("AccessF")},
+					Args: []ast.Expr{objFn, &ast.BasicLit{Kind: token.STRING, Value: strconv.Quote(p.field)}, ast.NewIdent(w),
+						&ast.BasicLit{Kind: token.STRING, Value: strconv.Quote(fmt.Sprintf("%s:%d %s", filepath.Base(pos.Filename), pos.Line, fn))}},
+				}}
+				out = append(out, call)
+			}
+			nested(s)
+			out = append(out, s)
+		}
+		b.List = out
+	}
+	instrBlock(fd.Body)
+}
+
+func isSimpleIdent(s string) bool {
+	for _, r := range s {
+		if !(r == '_' || r >= '0' && r <= '9' || r >= 'a' && r <= 'z' || r >= 'A' && r <= 'Z') {
+			return false
+		}
+	}
+	return s != ""
 }
